@@ -383,7 +383,11 @@ func c16(args []string) int {
 		g.V.AvoidKeys = []string{"time", "level", "message", "caller", st.TimestampFieldName, st.LevelFieldName, st.MessageFieldName}
 		stdParts := []string{st.TimestampFieldName, st.LevelFieldName, "caller", st.MessageFieldName}
 		g.S = &st
-		p := g.GenProgram(4, 2, 8)
+		maxOps := 8
+		if idx%8 == 5 {
+			maxOps = 48 // events with dozens of fields (sorting and ordering of many names)
+		}
+		p := g.GenProgram(4, 2, maxOps)
 		// every event carries a timestamp and a standard level
 		p.Chain = append([]gen.Step{{Kind: "WithTimestamp"}}, p.Chain...)
 		for i := range p.Events {
@@ -432,7 +436,10 @@ func c16(args []string) int {
 					names = append(names, kv.Key)
 				}
 				c.FieldsOrder, c.FieldsExclude = nil, nil
-				if r.Chance(1, 3) && len(names) > 0 {
+				if len(names) > 16 {
+					out.Count("events_with_more_than_16_members", 1)
+				}
+				if (r.Chance(1, 3) || len(names) > 16) && len(names) > 0 {
 					for k := 0; k < 1+r.Intn(3); k++ {
 						// no duplicates: "in that order" is ambiguous for a name listed twice
 						if nm := names[r.Intn(len(names))]; !inList(c.FieldsOrder, nm) {
